@@ -306,11 +306,29 @@ def storeStep (ss : SS) (toks : List String) : Option (SS × String) :=
           | some (_, n) => decide (e ≤ n)
           | none => true
         | _ => true
+      -- the files removed by the merge pass that issued the unlink at index `ju` of the WHOLE trace (the pass may
+      -- extend beyond the cut): the maximal run of consecutive unlink calls around `ju`
+      let full := ss.trace.zipIdx
+      let isUnlink : Nat → Bool := fun j => match (ss.trace[j]? : Option Call) with | some (Call.unlink _) => true | _ => false
+      let passOf : Nat → List Nat := fun ju =>
+        let before := ((List.range ju).reverse.takeWhile isUnlink)
+        let after := ((List.range (ss.trace.length - ju)).map (· + ju)).takeWhile isUnlink
+        (before ++ after).filterMap fun j => match (ss.trace[j]? : Option Call) with
+          | some (Call.unlink g) => if g.kind == .data then some g.id else none
+          | _ => none
       let ks := ss.keys.filter fun k =>
         withEnd.any fun (c, t, _) => match c with
           | .append f (.ofRec r) =>
             r.key == k && r.val.isNone &&
-            (withEnd.any fun (c2, j, _) => decide (j > t) && (match c2 with | .unlink g => g == f | _ => false)) &&
+            (withEnd.any fun (c2, j, _) => decide (j > t) && (match c2 with
+                | .unlink g =>
+                  g == f &&
+                  -- D3 proper: an older value of the key sits in a file that this pass did NOT select (a value in a
+                  -- selected file that merely has not been removed yet is a matter of removal order, not D3)
+                  (full.any fun (c0, j0) => decide (j0 < t) && (match c0 with
+                      | .append g0 (.ofRec r0) => r0.key == k && r0.val.isSome && g0.kind == .data && !(passOf j).contains g0.id
+                      | _ => false))
+                | _ => false)) &&
             !(withEnd.any fun (c2, j, e2) => decide (j > t) && (match c2 with
                 | .append _ (.ofRec r2) => r2.key == k && survives c2 e2
                 | _ => false))
